@@ -34,9 +34,20 @@ type gcsCfg struct {
 	M     uint64
 	N     int
 	MKind string
+	// Cluster > 1: the members are chosen (by rejection sampling of item
+	// bytes) so that their hashed values lie in one band of width N*M/Cluster,
+	// with at most two members far outside it: one very long gap, i.e. one
+	// very long unary run, in an otherwise ordinary filter.
+	Cluster int
 }
 
-func (g gcsCfg) String() string { return fmt.Sprintf("P=%d M=%d(%s) N=%d", g.P, g.M, g.MKind, g.N) }
+func (g gcsCfg) String() string {
+	s := fmt.Sprintf("P=%d M=%d(%s) N=%d", g.P, g.M, g.MKind, g.N)
+	if g.Cluster > 1 {
+		s += fmt.Sprintf(" members-clustered-in-1/%d-of-the-range", g.Cluster)
+	}
+	return s
+}
 
 // gcsNGrid is the directed list of set sizes of the grid streams.
 var gcsNGrid = []int{0, 1, 2, 3, 4, 5, 7, 8, 9, 15, 16, 17, 31, 33, 64, 100, 255, 256, 1000}
@@ -113,22 +124,33 @@ func gcsRandomCfg(r *vf.Rand, maxN int) gcsCfg {
 	if N > maxN {
 		N = maxN
 	}
-	return gcsCfg{P: P, M: M, N: N, MKind: mk}
+	cfg := gcsCfg{P: P, M: M, N: N, MKind: mk}
+	if N >= 2 && r.Chance(1, 8) {
+		cfg.Cluster = 2 + r.Intn(31)
+	}
+	return cfg
 }
 
 // gcsLargeCfgs are the directed large configurations: N*M on both sides of
 // 2^32 with the default parameters, N*M == 2^32 exactly, and N = 10^5.
 var gcsLargeCfgs = []gcsCfg{
-	{19, gcsDefaultM, 100000, "784931"},
-	{32, 1 << 32, 100000, "2^P"},
-	{19, gcsDefaultM, 20000, "784931"},
-	{19, gcsDefaultM, 5472, "784931"}, // N*M = 2^32 + 175136
-	{19, gcsDefaultM, 5471, "784931"}, // N*M = 2^32 - 609795
-	{16, 65536, 65536, "2^P"},         // N*M = 2^32
-	{20, 1 << 20, 50000, "2^P"},
-	{28, 1 << 32, 30000, "2^(P+4)"},
-	{19, gcsDefaultM, 65539, "784931"}, // beyond 2^16 members, N not a multiple of 4
-	{20, 1 << 20, 70001, "2^P"},
+	{19, gcsDefaultM, 100000, "784931", 0},
+	{32, 1 << 32, 100000, "2^P", 0},
+	{19, gcsDefaultM, 20000, "784931", 0},
+	{19, gcsDefaultM, 5472, "784931", 0}, // N*M = 2^32 + 175136
+	{19, gcsDefaultM, 5471, "784931", 0}, // N*M = 2^32 - 609795
+	{16, 65536, 65536, "2^P", 0},         // N*M = 2^32
+	{20, 1 << 20, 50000, "2^P", 0},
+	{28, 1 << 32, 30000, "2^(P+4)", 0},
+	{19, gcsDefaultM, 65539, "784931", 0}, // beyond 2^16 members, N not a multiple of 4
+	{20, 1 << 20, 70001, "2^P", 0},
+	{8, 16 << 8, 100000, "2^(P+4)", 4}, // one gap of about 1.2 million quotient steps
+	{0, 16, 100000, "2^(P+4)", 3},
+	{19, 16 << 19, 70000, "2^(P+4)", 8},
+	{12, 1 << 12, 100000, "2^P", 16},
+	{19, gcsDefaultM, 131077, "784931", 0}, // beyond 2^17 members, N not a multiple of 8
+	{16, 65536, 200003, "2^P", 0},
+	{19, gcsDefaultM, 262147, "784931", 0},
 }
 
 func gcsLargeCfg(r *vf.Rand, i int) gcsCfg {
@@ -142,7 +164,16 @@ func gcsLargeCfg(r *vf.Rand, i int) gcsCfg {
 	if r.Chance(1, 4) {
 		N = 100000
 	}
-	return gcsCfg{P: P, M: M, N: N, MKind: mk}
+	if r.Chance(1, 6) {
+		N = 131072 + r.Intn(200000)
+	}
+	cfg := gcsCfg{P: P, M: M, N: N, MKind: mk}
+	if r.Chance(1, 3) {
+		cfg.P = uint8(r.Intn(33))
+		cfg.M, cfg.MKind = gcsM(r, cfg.P, []int{1, 2, 2, 5}[r.Intn(4)])
+		cfg.Cluster = 2 + r.Intn(15)
+	}
+	return cfg
 }
 
 func gcsKey(r *vf.Rand) (k [16]byte) {
@@ -252,6 +283,49 @@ func gcsBuildWorld(c *vf.Ctx, cfg gcsCfg, extra int, site string) *gcsWorld {
 			w.vals[i] = ref.GCSValue(w.key, it, w.nm)
 		}
 	}
+	inBand := func(int) bool { return true }
+	if cfg.Cluster > 1 && w.nm >= uint64(cfg.Cluster) && N >= 2 {
+		band := w.nm / uint64(cfg.Cluster)
+		var lo uint64
+		where := r.Intn(3)
+		switch where {
+		case 1:
+			lo = w.nm - band
+		case 2:
+			lo = r.Uint64n(w.nm - band + 1)
+		}
+		outliers := map[int]bool{}
+		if where != 2 && band < w.nm/2 {
+			for j := 1 + r.Intn(2); j > 0; j-- {
+				outliers[r.Intn(min(N, 6))] = true
+			}
+		}
+		inBand = func(i int) bool { return outliers[i] || w.vals[i]-lo < band }
+		far := func(v uint64) bool { // beyond the band, at the opposite end of the range
+			if where == 0 {
+				return v >= w.nm-w.nm/32-1
+			}
+			return v <= w.nm/32
+		}
+		upto := min(k, N+N/4+64)
+		for i := 0; i < upto; i++ {
+			ok := func(v uint64) bool {
+				if outliers[i] {
+					return far(v)
+				}
+				return v-lo < band
+			}
+			for tries := 0; !ok(w.vals[i]) && tries < 4000; tries++ {
+				b := make([]byte, 5+r.Intn(12))
+				r.Fill(b)
+				binary.LittleEndian.PutUint32(b, uint32(i))
+				b[4] = 0xc1
+				w.items[i] = b
+				w.vals[i] = ref.GCSValue(w.key, b, w.nm)
+			}
+		}
+		c.Inc("worlds_with_clustered_members")
+	}
 	w.member = make([]bool, k)
 	reserved := make([]bool, k)
 
@@ -267,7 +341,7 @@ func gcsBuildWorld(c *vf.Ctx, cfg gcsCfg, extra int, site string) *gcsWorld {
 		pairBudget = distinct
 	}
 	take := func(a, b int) { // a becomes a member, b stays out
-		if len(chosen) >= pairBudget || w.member[a] || w.member[b] || reserved[a] || reserved[b] {
+		if len(chosen) >= pairBudget || w.member[a] || w.member[b] || reserved[a] || reserved[b] || !inBand(a) {
 			return
 		}
 		w.member[a] = true
@@ -366,6 +440,18 @@ func gcsBuildWorld(c *vf.Ctx, cfg gcsCfg, extra int, site string) *gcsWorld {
 		w.mvals = append(w.mvals, w.vals[i])
 	}
 	slices.Sort(w.mvals)
+	{
+		var prev, maxq uint64
+		for _, v := range w.mvals {
+			maxq = max(maxq, (v-prev)>>cfg.P)
+			prev = v
+		}
+		for _, t := range []uint{8, 12, 16, 20} {
+			if maxq >= 1<<t {
+				c.Inc(fmt.Sprintf("worlds_with_a_unary_run_of_2^%d_bits_or_more", t))
+			}
+		}
+	}
 	if w.nm > 1<<32 {
 		w.mlow = make(map[uint32]struct{}, N)
 		for _, v := range w.mvals {
